@@ -7,6 +7,7 @@ Property theorems only; helpers are in `Sqfs/Proofs/HardLink.lean` (hard links) 
 `Sqfs/Witness/C07.lean`).
 -/
 import Sqfs.Proofs.HardLinkTree
+import Sqfs.Proofs.TextParse
 namespace Sqfs.C07
 open Sqfs.HardLink
 
@@ -157,5 +158,107 @@ example : (resolveAllFix [.dir, .hlink (.found 0)] 3 (St.init (fun _ => 1)) [1])
 example : (resolveAllFix [.dir, .hlink (.fail .ENOENT)] 3 (St.init (fun _ => 1)) [1]).view [] = .err 1 .ENOENT := by decide
 example : (resolveAllFix [.dir, .hlink (.found 2), .hlink (.found 1), .hlink (.found 1)] 5 (St.init (fun _ => 1))
       [3, 2, 1]).view [] = .err 3 .EMLINK := by decide
+
+
+/-! ## Parser totality and bounds
+
+Every model function below performs each `*p` of the C code as a checked access of the buffer it
+is given and each loop with explicit fuel; `.safe` = "no access outside the buffer, and the loop
+has ended".  All theorems quantify over **every** buffer content.
+-/
+section Parsers
+open Sqfs.ParseTotal
+
+/-- `read_number` reads only the `digits` bytes of its field, whatever they contain (octal, blanks,
+base-256 with either sign, garbage), for both the 1.2.0 and the repaired overflow guard of `read_binary`. -/
+theorem read_number_in_bounds (fixed : Bool) (buf : Bytes) (i digits : Nat) (hd : 0 < digits)
+    (h : i + digits ≤ buf.length) : (readNumber fixed buf i digits).safe :=
+  readNumber_safe fixed buf i digits hd h
+
+/-- the overflow guard of `read_octal` is sound: an accepted value fits `sqfs_u64` (no bit was shifted out) -/
+theorem read_octal_no_wrap (buf : Bytes) (i digits v : Nat) (h : readOctal buf i digits = .ok v) : v < U64 := by
+  unfold readOctal at h
+  cases hs : skipSpaces buf i digits with
+  | ok r => obtain ⟨j, d⟩ := r; rw [hs] at h; exact octLoop_fits buf d j 0 v (by simp [U64]) h
+  | fail c => rw [hs] at h; cases h
+  | oob => rw [hs] at h; cases h
+  | spin => rw [hs] at h; cases h
+
+/-- `parse_uint`/`parse_uint_oct` with an explicit length stay inside `len` bytes; the value fits 64 bits
+and `*diff ≤ len` -/
+theorem parse_uint_in_bounds_len (base : Nat) (buf : Bytes) (i n : Nat) (wantDiff : Bool) (vmin vmax : Nat)
+    (h : i + n ≤ buf.length) :
+    (parseU base buf i (some n) wantDiff vmin vmax).safe ∧
+    ∀ v d, parseU base buf i (some n) wantDiff vmin vmax = .ok (v, d) → v < U64 ∧ d ≤ n :=
+  parseU_safe_len base buf i n wantDiff vmin vmax h
+
+/-- … and with `len = (size_t)-1` they never pass the string's terminator -/
+theorem parse_uint_in_bounds_nul (base : Nat) (buf : Bytes) (i k : Nat) (wantDiff : Bool) (vmin vmax : Nat)
+    (hik : i ≤ k) (hk : buf[k]? = some 0) :
+    (parseU base buf i none wantDiff vmin vmax).safe ∧
+    ∀ v d, parseU base buf i none wantDiff vmin vmax = .ok (v, d) → v < U64 ∧ i + d ≤ k :=
+  parseU_safe_nul base buf i k wantDiff vmin vmax hik hk
+
+/-- `parse_int`, both calling conventions -/
+theorem parse_int_in_bounds (buf : Bytes) (i : Nat) (wantDiff : Bool) :
+    (∀ n, i + n ≤ buf.length → (parseI buf i (some n) wantDiff).safe) ∧
+    (∀ k, i ≤ k → buf[k]? = some 0 → (parseI buf i none wantDiff).safe) :=
+  ⟨fun n h => parseI_safe_len buf i n wantDiff h, fun k hik hk => parseI_safe_nul buf i k wantDiff hik hk⟩
+
+/-- `hex_decode` reads only `in_sz` input bytes and writes at most `out_sz` output bytes -/
+theorem hex_decode_bounds (buf : Bytes) (i inSz outSz : Nat) (h : i + inSz ≤ buf.length) :
+    (hexDecode buf i inSz outSz []).safe ∧ ∀ out, hexDecode buf i inSz outSz [] = .ok out → out.length ≤ outSz :=
+  ⟨hexDecode_safe buf outSz i inSz [] h, fun out ho => by simpa using hexDecode_len buf outSz i inSz [] out ho⟩
+
+/-- `base64_decode` reads only `in_len` input bytes and never writes more than `*out_len` output bytes -/
+theorem base64_decode_bounds (buf : Bytes) (i inLen cap : Nat) (h : i + inLen ≤ buf.length) :
+    (base64Decode buf i inLen cap).safe ∧ ∀ out, base64Decode buf i inLen cap = .ok out → out.length ≤ cap :=
+  ⟨base64Decode_safe buf i inLen cap h, fun out ho => base64Decode_len buf i inLen cap out ho⟩
+
+/--
+`split_line` on **any** line content and separator set: all accesses stay inside the `len + 1` byte object
+(the last terminator may land on index `len`), the write cursor never passes the read cursor (`SLInv`,
+used inside the proof), the loops end, and there are at most `len` tokens.
+-/
+theorem split_line_total (buf : Bytes) (len : Nat) (sep : Bytes) (h : len + 1 ≤ buf.length) :
+    (splitLine buf len sep).safe ∧
+    ∀ s, splitLine buf len sep = .ok s → s.args.length ≤ len ∧ s.buf.length = buf.length :=
+  splitLine_spec buf len sep h
+
+/--
+`read_pax_header` (after fixes/C07-pax-sparse-uaf.patch) on **any** record of any length: every access —
+`strtol`, the length/terminator stores, key scan, every handler (`parse_uint`, `parse_int`, the in-place
+base-64 decoder, `GNU.sparse.map`) — stays inside the `entsize + 1` bytes that `record_to_memory`
+allocated, and the record loop ends.  For the 1.2.0 code this is false: `Witness.pax_use_after_free`.
+-/
+theorem read_pax_header_total (record : Bytes) : (readPaxHeader true record).safe :=
+  readPaxHeader_safe record
+
+/--
+`read_gnu_new_sparse` on **any** stream and record size: `decode` never reads outside the 1024-byte window
+(the refill always leaves `1 ≤ diff ≤ 512`, `refill_progress`), and an accepted map has between 1 and
+`TAR_MAX_SPARSE_ENT` entries.
+-/
+theorem sparse_map_new_bounds (stream : Bytes) (recordSize : Nat) :
+    (readGnuNewSparse stream recordSize).safe ∧
+    ∀ m rs rest, readGnuNewSparse stream recordSize = .ok (m, rs, rest) →
+      1 ≤ m.length ∧ m.length ≤ Sqfs.Consts.tarMaxSparseEnt :=
+  readGnuNewSparse_spec stream recordSize
+
+/-- `read_gnu_old_sparse`: the 4 + 21·n entries are read inside the 512-byte header / extension records, and the
+extension loop ends (one record is consumed per round) -/
+theorem sparse_map_old_bounds (fixed : Bool) (hdr stream : Bytes) (h : hdr.length = Sqfs.Consts.sizeofTarHeader) :
+    (readGnuOldSparse fixed hdr stream).safe :=
+  readGnuOldSparse_safe fixed hdr stream (by simpa [Sqfs.Consts.sizeofTarHeader] using h)
+
+/-! ### non-vacuity -/
+example : readNumber false [48, 48, 48, 49, 50, 51, 52, 0] 0 8 = .ok 668 := by decide
+example : readNumber false [0x80, 0, 0, 0, 0, 0, 1, 0] 0 8 = .ok 256 := by decide
+example : (parseU 10 [49, 50, 51, 44, 0] 0 none true 0 0) = .ok (123, 3) := by decide
+example : base64Decode [81, 85, 74, 68] 0 4 3 = .ok [65, 66, 67] := by decide
+example : base64Decode [81, 85, 74, 68] 0 4 2 = .fail 1 := by decide
+example : (match splitLine [97, 32, 34, 98, 32, 99, 34, 0] 7 [32, 9] with | .ok s => s.args.length | _ => 99) = 2 := by decide
+
+end Parsers
 
 end Sqfs.C07
